@@ -74,6 +74,208 @@ class LogV:
         return Log(self.P)
 
 
+# --------------------------------------------------------------------------- extended reals (NaN / +-inf aware mode)
+class XV:
+    """An IEEE-like extended real: NaN, +inf, -inf or the finite real v (flags are z3 Bools, mutually exclusive).
+    Signed zeros are not modelled (x / 0 takes the sign of x).  Used only where a harness feeds XV inputs; every rule
+    without extended-real semantics refuses XV operands (Unsupported), so the mode can be incomplete but not wrong."""
+
+    __slots__ = ("nan", "pinf", "ninf", "v")
+
+    def __init__(self, nan, pinf, ninf, v):
+        self.nan, self.pinf, self.ninf, self.v = nan, pinf, ninf, v
+
+    @staticmethod
+    def fin(v):
+        return XV(FALSE_, FALSE_, FALSE_, v)
+
+    def finite(self):
+        return x_not(x_or(self.nan, self.pinf, self.ninf))
+
+    def inf(self):
+        return x_or(self.pinf, self.ninf)
+
+    def __repr__(self):
+        return f"XV(nan={self.nan}, +inf={self.pinf}, -inf={self.ninf}, v={self.v})"
+
+
+FALSE_, TRUE_ = z3.BoolVal(False), z3.BoolVal(True)
+
+
+def x_or(*xs):
+    xs = [x for x in xs if not z3.is_false(x)]
+    if any(z3.is_true(x) for x in xs):
+        return TRUE_
+    return FALSE_ if not xs else (xs[0] if len(xs) == 1 else z3.Or(*xs))
+
+
+def x_and(*xs):
+    xs = [x for x in xs if not z3.is_true(x)]
+    if any(z3.is_false(x) for x in xs):
+        return FALSE_
+    return TRUE_ if not xs else (xs[0] if len(xs) == 1 else z3.And(*xs))
+
+
+def x_not(x):
+    if z3.is_true(x):
+        return FALSE_
+    if z3.is_false(x):
+        return TRUE_
+    return z3.Not(x)
+
+
+def x_ite(c, a, b):
+    if z3.is_true(c):
+        return a
+    if z3.is_false(c):
+        return b
+    if a.eq(b):
+        return a
+    return z3.If(c, a, b)
+
+
+def to_xv(t):
+    if isinstance(t, XV):
+        return t
+    if isinstance(t, LogV):
+        raise Unsupported("log-domain value in extended-real mode")
+    t = s_real(t)
+    return XV.fin(t)
+
+
+def any_xv(*ts):
+    return any(isinstance(t, XV) for t in ts)
+
+
+def xv_pos(a):
+    return x_or(a.pinf, x_and(a.finite(), a.v > 0))
+
+
+def xv_neg(a):
+    return x_or(a.ninf, x_and(a.finite(), a.v < 0))
+
+
+def xv_zero(a):
+    return x_and(a.finite(), a.v == 0)
+
+
+def xv_add(a, b):
+    a, b = to_xv(a), to_xv(b)
+    nan = x_or(a.nan, b.nan, x_and(a.pinf, b.ninf), x_and(a.ninf, b.pinf))
+    return XV(nan, x_and(x_not(nan), x_or(a.pinf, b.pinf)), x_and(x_not(nan), x_or(a.ninf, b.ninf)), _plain_add(a.v, b.v))
+
+
+def xv_neg_(a):
+    return XV(a.nan, a.ninf, a.pinf, _plain_neg(a.v))
+
+
+def xv_mul(a, b):
+    a, b = to_xv(a), to_xv(b)
+    nan = x_or(a.nan, b.nan, x_and(a.inf(), xv_zero(b)), x_and(xv_zero(a), b.inf()))
+    isinf = x_and(x_not(nan), x_or(a.inf(), b.inf()))
+    same = x_or(x_and(xv_pos(a), xv_pos(b)), x_and(xv_neg(a), xv_neg(b)))
+    diff = x_or(x_and(xv_pos(a), xv_neg(b)), x_and(xv_neg(a), xv_pos(b)))
+    return XV(nan, x_and(isinf, same), x_and(isinf, diff), _plain_mul(a.v, b.v))
+
+
+def xv_div(a, b):
+    a, b = to_xv(a), to_xv(b)
+    nan = x_or(a.nan, b.nan, x_and(a.inf(), b.inf()), x_and(xv_zero(a), xv_zero(b)))
+    isinf = x_and(x_not(nan), x_or(a.inf(), x_and(xv_zero(b), x_not(xv_zero(a)))))
+    negb = xv_neg(b)
+    pinf = x_and(isinf, x_or(x_and(xv_pos(a), x_not(negb)), x_and(xv_neg(a), negb)))
+    ninf = x_and(isinf, x_or(x_and(xv_neg(a), x_not(negb)), x_and(xv_pos(a), negb)))
+    v = x_ite(b.inf(), RV(0), a.v / x_ite(b.v == 0, RV(1), b.v) if not is_num(b.v) else (a.v / b.v if num_val(b.v) != 0 else a.v))
+    return XV(nan, pinf, ninf, v)
+
+
+def xv_sqrt(a):
+    a = to_xv(a)
+    return XV(x_or(a.nan, a.ninf, x_and(a.finite(), a.v < 0)), a.pinf, FALSE_, s_sqrt(a.v))
+
+
+def xv_log(a):
+    a = to_xv(a)
+    return XV(x_or(a.nan, a.ninf, x_and(a.finite(), a.v < 0)), a.pinf, x_and(a.finite(), a.v == 0), Log(a.v))
+
+
+def xv_exp(a):
+    a = to_xv(a)
+    return XV(a.nan, a.pinf, FALSE_, x_ite(a.ninf, RV(0), Exp(a.v) if not (is_num(a.v) and num_val(a.v) == 0) else RV(1)))
+
+
+def xv_ite(c, a, b):
+    a, b = to_xv(a), to_xv(b)
+    return XV(x_ite(c, a.nan, b.nan), x_ite(c, a.pinf, b.pinf), x_ite(c, a.ninf, b.ninf), x_ite(c, a.v, b.v))
+
+
+def xv_lt(a, b):
+    a, b = to_xv(a), to_xv(b)
+    return x_and(x_not(x_or(a.nan, b.nan)),
+                 x_or(x_and(a.ninf, x_not(b.ninf)), x_and(b.pinf, x_not(a.pinf)), x_and(a.finite(), b.finite(), a.v < b.v)))
+
+
+def xv_le(a, b):
+    a, b = to_xv(a), to_xv(b)
+    return x_and(x_not(x_or(a.nan, b.nan)), x_or(a.ninf, b.pinf, x_and(a.finite(), b.finite(), a.v <= b.v)))
+
+
+def xv_eq(a, b):
+    a, b = to_xv(a), to_xv(b)
+    return x_and(x_not(x_or(a.nan, b.nan)),
+                 x_or(x_and(a.pinf, b.pinf), x_and(a.ninf, b.ninf), x_and(a.finite(), b.finite(), a.v == b.v)))
+
+
+def xv_max(a, b):
+    a, b = to_xv(a), to_xv(b)
+    nan = x_or(a.nan, b.nan)
+    return XV(nan, x_and(x_not(nan), x_or(a.pinf, b.pinf)), x_and(x_not(nan), a.ninf, b.ninf),
+              x_ite(a.ninf, b.v, x_ite(b.ninf, a.v, z3.If(a.v >= b.v, a.v, b.v))))
+
+
+def xv_min(a, b):
+    a, b = to_xv(a), to_xv(b)
+    nan = x_or(a.nan, b.nan)
+    return XV(nan, x_and(x_not(nan), a.pinf, b.pinf), x_and(x_not(nan), x_or(a.ninf, b.ninf)),
+              x_ite(a.pinf, b.v, x_ite(b.pinf, a.v, z3.If(a.v <= b.v, a.v, b.v))))
+
+
+def xv_abs(a):
+    a = to_xv(a)
+    return XV(a.nan, a.inf(), FALSE_, z3.If(a.v >= 0, a.v, -a.v))
+
+
+def xv_same(a, b):
+    """the two extended reals are the same value (NaN counts as equal to NaN): used for obligations"""
+    a, b = to_xv(a), to_xv(b)
+    return z3.And(a.nan == b.nan, a.pinf == b.pinf, a.ninf == b.ninf, z3.Implies(a.finite(), a.v == b.v))
+
+
+def _plain_add(a, b):
+    if is_num(a) and is_num(b):
+        return RV(num_val(a) + num_val(b))
+    if is_num(a) and num_val(a) == 0:
+        return b
+    if is_num(b) and num_val(b) == 0:
+        return a
+    return a + b
+
+
+def _plain_neg(a):
+    return RV(-num_val(a)) if is_num(a) else -a
+
+
+def _plain_mul(a, b):
+    if is_num(a) and is_num(b):
+        return RV(num_val(a) * num_val(b))
+    for x, y in ((a, b), (b, a)):
+        if is_num(x) and num_val(x) == 1:
+            return y
+        if is_num(x) and num_val(x) == 0:
+            return RV(0)
+    return a * b
+
+
 # --------------------------------------------------------------------------- scalars
 def is_num(t):
     return z3.is_rational_value(t) or z3.is_int_value(t)
@@ -176,7 +378,7 @@ def obj(x):
 # smart constructors -------------------------------------------------------------
 def s_real(t):
     """coerce Int/Bool term to Real"""
-    if isinstance(t, LogV):
+    if isinstance(t, (LogV, XV)):
         return t
     if z3.is_bool(t):
         if z3.is_true(t):
@@ -192,10 +394,14 @@ def s_real(t):
 
 
 def unlog(t):
+    if isinstance(t, XV):
+        raise Unsupported("extended-real (NaN/inf aware) operand in a rule without extended-real semantics")
     return t.term() if isinstance(t, LogV) else t
 
 
 def s_add(a, b):
+    if any_xv(a, b):
+        return xv_add(a, b)
     if isinstance(a, LogV) or isinstance(b, LogV):
         if isinstance(a, LogV) and isinstance(b, LogV):
             if is_num(a.P) and num_val(a.P) == 0 or is_num(b.P) and num_val(b.P) == 0:
@@ -301,6 +507,8 @@ def _as_log_const(v):
 
 
 def s_neg(a):
+    if any_xv(a):
+        return xv_neg_(a)
     if isinstance(a, LogV):
         if z3.is_div(a.P) and is_num(a.P.arg(0)) and num_val(a.P.arg(0)) == 1:
             return LogV(a.P.arg(1))
@@ -312,6 +520,8 @@ def s_neg(a):
 
 
 def s_sub(a, b):
+    if any_xv(a, b):
+        return xv_add(a, xv_neg_(to_xv(b)))
     if isinstance(a, LogV) or isinstance(b, LogV):
         if isinstance(a, LogV) and isinstance(b, LogV):
             return LogV(a.P / b.P)
@@ -325,6 +535,8 @@ def s_sub(a, b):
 
 
 def s_mul(a, b):
+    if any_xv(a, b):
+        return xv_mul(a, b)
     if isinstance(a, LogV) or isinstance(b, LogV):
         l, r = (a, b) if isinstance(a, LogV) else (b, a)
         if isinstance(r, LogV):
@@ -371,6 +583,8 @@ def s_mul(a, b):
 
 def s_div(a, b):
     """real division"""
+    if any_xv(a, b):
+        return xv_div(a, b)
     if isinstance(a, LogV) or isinstance(b, LogV):
         if isinstance(b, LogV):
             b = b.term()
@@ -411,6 +625,8 @@ def s_ite(c, a, b):
         return a
     if z3.is_false(c):
         return b
+    if any_xv(a, b):
+        return xv_ite(c, a, b)
     if isinstance(a, LogV) or isinstance(b, LogV):
         a, b = to_logv(a), to_logv(b)
         return LogV(z3.If(c, a.P, b.P))
@@ -438,6 +654,8 @@ def to_logv(t):
 
 
 def s_exp(a):
+    if any_xv(a):
+        return xv_exp(a)
     if isinstance(a, LogV):
         return mark_nonneg(a.P)       # LogV invariant: P >= 0
     if is_app_of(a, "Log", 1):
@@ -459,6 +677,7 @@ def s_exp(a):
 
 
 LOGMODE = [False]
+XVMODE = [False]     # extended-real mode: set by sym_trace when an input is an XV
 NAN_CONDS = []      # conditions under which 0 * (-inf) was computed (NaN in floating point)
 
 
@@ -485,6 +704,9 @@ def _fold_cmp(op):
     refl = op(1, 1)      # value of `x op x`
 
     def f(a, b):
+        if any_xv(a, b):
+            return {"lt": xv_lt(a, b), "le": xv_le(a, b), "gt": xv_lt(b, a), "ge": xv_le(b, a), "eq": xv_eq(a, b),
+                    "ne": x_not(xv_eq(a, b))}[op.__name__]
         a, b = _cmp_args(a, b)
         if is_num(a) and is_num(b):
             return BV(op(num_val(a), num_val(b)))
@@ -507,6 +729,8 @@ def _is_neginf(a):
 
 
 def s_max(a, b):
+    if any_xv(a, b):
+        return xv_max(a, b)
     if _is_neginf(a):
         return b
     if _is_neginf(b):
@@ -530,6 +754,8 @@ def s_max(a, b):
 
 
 def s_min(a, b):
+    if any_xv(a, b):
+        return xv_min(a, b)
     if _is_neginf(a):
         return a
     if _is_neginf(b):
@@ -678,8 +904,8 @@ RULES["neg"] = ew(s_neg)
 RULES["max"] = ew(s_max)
 RULES["min"] = ew(s_min)
 RULES["exp"] = ew(s_exp)
-RULES["log"] = ew(lambda a: s_log(unlog(a)))
-RULES["log1p"] = ew(lambda a: s_log(s_add(RV(1), unlog(a))))
+RULES["log"] = ew(lambda a: xv_log(a) if isinstance(a, XV) else s_log(unlog(a)))
+RULES["log1p"] = ew(lambda a: xv_log(xv_add(RV(1), a)) if isinstance(a, XV) else s_log(s_add(RV(1), unlog(a))))
 RULES["expm1"] = ew(lambda a: s_sub(s_exp(a), RV(1)))
 RULES["exp2"] = ew(lambda a: UF("Exp2", RealS, RealS)(unlog(a)))
 RULES["lt"] = ew(s_lt)
@@ -696,10 +922,10 @@ RULES["copy_p"] = lambda ctx, eqn, a: a
 RULES["optimization_barrier"] = lambda ctx, eqn, *a: list(a)
 RULES["real"] = lambda ctx, eqn, a: a
 RULES["reduce_precision"] = lambda ctx, eqn, a: a
-RULES["is_finite"] = ew(lambda a: (s_gt(a.P, RV(0)) if isinstance(a, LogV) else TRUE))
-RULES["square"] = ew(lambda a: s_mul(unlog(a), unlog(a)))
-RULES["abs"] = ew(lambda a: (lambda t: t if is_nonneg(t) else (s_neg(t) if is_num(t) else z3.If(t >= 0, t, -t)))(unlog(a)))
-RULES["sign"] = ew(lambda a: (lambda t, one, zero, m: z3.If(t > zero, one, z3.If(t < zero, m, zero)))(unlog(a), *( (IV(1), IV(0), IV(-1)) if z3.is_int(unlog(a)) else (RV(1), RV(0), RV(-1)))))
+RULES["is_finite"] = ew(lambda a: a.finite() if isinstance(a, XV) else (s_gt(a.P, RV(0)) if isinstance(a, LogV) else TRUE))
+RULES["square"] = ew(lambda a: xv_mul(a, a) if isinstance(a, XV) else s_mul(unlog(a), unlog(a)))
+RULES["abs"] = ew(lambda a: xv_abs(a) if isinstance(a, XV) else (lambda t: t if is_nonneg(t) else (s_neg(t) if is_num(t) else z3.If(t >= 0, t, -t)))(unlog(a)))
+RULES["sign"] = ew(lambda a: XV(a.nan, FALSE_, FALSE_, z3.If(xv_pos(a), RV(1), z3.If(xv_neg(a), RV(-1), RV(0)))) if isinstance(a, XV) else (lambda t, one, zero, m: z3.If(t > zero, one, z3.If(t < zero, m, zero)))(unlog(a), *( (IV(1), IV(0), IV(-1)) if z3.is_int(unlog(a)) else (RV(1), RV(0), RV(-1)))))
 def _floor(a):
     a = unlog(a)
     if is_num(a):
@@ -805,6 +1031,8 @@ Sqrt = UF("Sqrt", RealS, RealS)
 
 
 def s_sqrt(a):
+    if any_xv(a):
+        return xv_sqrt(a)
     a = unlog(a)
     if is_num(a):
         v = num_val(a)
@@ -821,7 +1049,7 @@ RULES["rsqrt"] = ew(lambda a: s_div(RV(1), s_sqrt(a)))
 
 @rule("logistic")
 def r_logistic(ctx, eqn, a):
-    return ew(lambda x: s_div(RV(1), s_add(RV(1), s_exp(s_neg(unlog(x))))))(ctx, eqn, a)
+    return ew(lambda x: s_div(RV(1), s_add(RV(1), s_exp(s_neg(x if isinstance(x, XV) else unlog(x))))))(ctx, eqn, a)
 
 
 @rule("integer_pow")
@@ -829,6 +1057,14 @@ def r_integer_pow(ctx, eqn, a):
     y = eqn.params["y"]
 
     def f(v):
+        if isinstance(v, XV):
+            n = abs(y)
+            if n == 0:
+                return XV.fin(RV(1))
+            r = v
+            for _ in range(n - 1):
+                r = xv_mul(r, v)
+            return r if y > 0 else xv_div(RV(1), r)
         v = unlog(v)
         n = abs(y)
         if n == 0:
@@ -843,6 +1079,11 @@ def r_integer_pow(ctx, eqn, a):
 @rule("pow")
 def r_pow(ctx, eqn, a, b):
     def f(x, y):
+        if isinstance(x, XV) and not isinstance(y, XV) and is_num(y) and num_val(y).denominator == 1 and 0 <= num_val(y) <= 6:
+            r = XV.fin(RV(1))
+            for _ in range(int(num_val(y))):
+                r = xv_mul(r, x)
+            return r
         x, y = unlog(x), unlog(y)
         if is_num(y):
             v = num_val(y)
@@ -910,6 +1151,8 @@ def r_convert(ctx, eqn, a):
     if new == old:
         return a
     if new == "f":
+        if XVMODE[0]:
+            return ew(lambda v: to_xv(s_real(v)))(ctx, eqn, a)      # every float is an extended real in this mode
         return ew(s_real)(ctx, eqn, a)
     if new in "iu" and old in "iu":
         return a
@@ -1288,7 +1531,9 @@ def r_dot_general(ctx, eqn, a, b):
             for j in np.ndindex(*fbshape):
                 acc = IV(0) if isint else RV(0)
                 for c in np.ndindex(*cshape):
-                    x, y = unlog(a2[bi + i + c]), unlog(b2[bi + j + c])
+                    x, y = a2[bi + i + c], b2[bi + j + c]
+                    if not any_xv(x, y):
+                        x, y = unlog(x), unlog(y)
                     if not isint:
                         x, y = s_real(x), s_real(y)
                     acc = s_add(acc, s_mul(x, y))
@@ -1740,6 +1985,9 @@ def r_sample(ctx, eqn, prim, inner, *args):
         tag = "_".join(str(p) for p in sid)
         outs = [fresh_like(v.aval.shape, v.aval.dtype, f"{ctx.prefix}{tag}" + (f"o{k}" if k else ""))
                 for k, v in enumerate(eqn.outvars)]
+        if XVMODE[0]:
+            # a draw is a finite number
+            outs = [ew(lambda t: XV.fin(t))(None, None, o) if kind_of(v.aval.dtype) == "f" else o for o, v in zip(outs, eqn.outvars)]
     ctx.sites.append(Site(eqn.params.get("name") or inner.get("name"), prim.name, list(args), outs,
                           inner.get("sample_shape"), inner, eqn, ctx.path, sid))
     return outs
@@ -1896,7 +2144,12 @@ def sym_trace(fn, *example_args, prefix="a", logmode=False, sym_in=None, ctx=Non
     else:
         sym_in = [obj(s) for s in sym_in]
     del NAN_CONDS[:]
-    outs = eval_jaxpr(ctx, closed.jaxpr, closed.consts, *sym_in)
+    old_xv = XVMODE[0]
+    XVMODE[0] = any(isinstance(e, XV) for a in sym_in for e in obj(a).ravel())
+    try:
+        outs = eval_jaxpr(ctx, closed.jaxpr, closed.consts, *sym_in)
+    finally:
+        XVMODE[0] = old_xv
     ctx.nan_conds = list(NAN_CONDS)
     out_tree = jax.tree_util.tree_structure(out_shape)
     return Traced(ctx, jax.tree_util.tree_unflatten(in_tree, sym_in),
@@ -1924,7 +2177,10 @@ def terms(x):
     res = []
     for l in jax.tree_util.tree_leaves(x, is_leaf=lambda t: isinstance(t, np.ndarray)):
         for e in obj(l).ravel():
-            res.append(unlog(e))
+            if isinstance(e, XV):
+                res += [e.nan, e.pinf, e.ninf, e.v]
+            else:
+                res.append(unlog(e))
     return res
 
 
